@@ -34,7 +34,8 @@ WAL_GRAMMAR = r"""
     int : dec_int | bin_int | hex_int
     float : /[+-]?[0-9]+\.[0-9]*/
     dec_int : /[+-]?[0-9]+/
-    bin_int : /0b[0-1]+/
+    bin_int : BIN_INT
+    BIN_INT.2 : /0b[0-1]+/
     hex_int : /0x[0-9a-fA-F]+/
 
     bool : true | false
